@@ -509,6 +509,19 @@ def _parse_schema(
 
     # If we reach here, detection_result.action == CycleAction.CONTINUE_PARSING
 
+    # The tracker only bounds named schemas. Anonymous ones (inline oneOf / anyOf / allOf members, additionalProperties
+    # values) nest as deep as the document does: cut them at the depth limit too, before the interpreter stack is
+    # exhausted. A `$ref` node continues: its target is a named schema, which the tracker bounds itself.
+    if (
+        schema_name is None
+        and isinstance(schema_node, Mapping)
+        and "$ref" not in schema_node
+        and context.unified_cycle_context.recursion_depth
+        > int(os.environ.get("PYOPENAPI_MAX_DEPTH", context.unified_cycle_context.max_depth))
+    ):
+        context.unified_exit_schema(schema_name)  # Balance the enter call
+        return IRSchema(type="object", description="[Maximum recursion depth exceeded]", _max_depth_exceeded_marker=True)
+
     # Sanitize schema name early for consistent use throughout parsing
     # This ensures property enums get named correctly with the sanitized parent name
     sanitized_schema_name = NameSanitizer.sanitize_class_name(schema_name) if schema_name else None
